@@ -106,7 +106,8 @@ class Run:
                 kf.append((v, open_keys[v["key"]]))
             else:
                 real.append(v)
-        vdir = os.path.join(VERIF, "evidence", "violations")
+        evdir = os.environ.get("VERIF_EVIDENCE_DIR") or os.path.join(VERIF, "evidence")
+        vdir = os.path.join(evdir, "violations")
         os.makedirs(vdir, exist_ok=True)
         for fn in os.listdir(vdir):
             if fn.startswith(self.prop + "-"):
@@ -121,6 +122,12 @@ class Run:
             print("VIOLATION property=%s replay=%s" % (self.prop, p))
             print("  rule=%s key=%s" % (v["rule"], v["key"]))
             print("  at %s: %s" % (v["loc"], v["what"]))
+        if self.tier == "thorough" and not os.environ.get("VERIF_SUBRUN"):
+            self.selftests = selftest_seeded(self.prop)
+            lost = [t["seed"] for t in self.selftests if t.get("expected") and t.get("detected") is False]
+            if lost:
+                self.notes.append("self-test: seeded changes previously reported by this check are no longer reported: %s" % lost)
+                print("SELF-TEST WARNING property=%s no longer detects seeded changes %s" % (self.prop, lost))
         wall = time.time() - self.t0
         samples = []
         # a spread of instances: first of every rule, then fill
@@ -165,10 +172,67 @@ class Run:
             "wall_s": round(wall, 2),
             "violations": len(real),
         }
-        os.makedirs(os.path.join(VERIF, "evidence"), exist_ok=True)
-        with open(os.path.join(VERIF, "evidence", self.prop + ".json"), "w") as f:
+        os.makedirs(evdir, exist_ok=True)
+        with open(os.path.join(evdir, self.prop + ".json"), "w") as f:
             json.dump(ev, f, indent=1)
         nrules = len(self.rule_counts)
         print("%s %s: %d rule instances over %d rules, %d violations (%d known), %.1fs" %
               (self.prop, self.tier, len(self.instances), nrules, len(real), len(kf), wall))
         return 1 if real else 0
+
+
+def selftest_seeded(prop):
+    """thorough tier: apply each seeded change kept for this property to a scratch copy of /repo (outside /repo and /verif),
+    run this property's quick check against the copy in a sub-process and record whether it reports a violation.  The
+    copies, their fact exports and evidence go to a temporary directory that is removed afterwards."""
+    import concurrent.futures as cf
+    import glob
+    import shutil
+    import subprocess
+    import tempfile
+    from .facts import REPO
+    seeds = sorted(glob.glob(os.path.join(VERIF, "seeded", "*", "*", "patch.diff")))
+    mine = []
+    for sp in seeds:
+        d = os.path.dirname(sp)
+        try:
+            with open(os.path.join(d, "meta.json")) as fh:
+                meta = json.load(fh)
+        except (OSError, ValueError):
+            continue
+        if prop in (meta.get("caught_by") or []) or meta.get("property") == prop:
+            mine.append((d, meta))
+    root = tempfile.mkdtemp(prefix="verif-selftest.")
+    out = []
+
+    def one(item):
+        d, meta = item
+        sid = "%s/%s" % (os.path.basename(os.path.dirname(d)), os.path.basename(d))
+        work = os.path.join(root, sid.replace("/", "_"))
+        res = {"seed": sid, "expected": prop in (meta.get("caught_by") or [])}
+        try:
+            subprocess.run(["rsync", "-a", "--exclude", "/target", "--exclude", ".git", REPO.rstrip("/") + "/", work + "/"], check=True)
+            a = subprocess.run(["git", "apply", "--whitespace=nowarn", os.path.join(d, "patch.diff")], cwd=work,
+                               capture_output=True, text=True)
+            if a.returncode != 0:
+                res["skipped"] = "patch does not apply to the current tree"
+                return res
+            env = dict(os.environ, VERIF_REPO=work, VERIF_SUBRUN="1", VERIF_EVIDENCE_DIR=os.path.join(work + ".ev"))
+            p = subprocess.run([sys.executable, os.path.join(VERIF, "checks", "run"), prop, "quick"], env=env,
+                               capture_output=True, text=True, cwd=VERIF)
+            res["detected"] = p.returncode == 1
+            res["exit"] = p.returncode
+            first = [l.strip() for l in p.stdout.splitlines() if l.startswith("  rule=")]
+            res["rule"] = first[0][:200] if first else None
+        except Exception as e:         # the self-test must never break the check itself
+            res["skipped"] = "self-test error: %s" % e
+        finally:
+            shutil.rmtree(work, ignore_errors=True)
+            shutil.rmtree(work + ".ev", ignore_errors=True)
+        return res
+    try:
+        with cf.ThreadPoolExecutor(max_workers=4) as ex:
+            out = list(ex.map(one, mine))
+    finally:
+        shutil.rmtree(root, ignore_errors=True)
+    return out
